@@ -63,6 +63,12 @@ def sample_settings(r, doc, rich=True):
             s["conversions"] = [{"schema": tgt, "type": "::vrt::support::Repl",
                                  "impls": r.choice([[], ["Display"], ["FromStr", "Display"]])}]
             sig.append("convert")
+    if s.get("conversions") or s.get("replacements"):
+        # the stand-in type ::vrt::support::Repl is neither ordered nor hashable: a patch that asks for those traits on a type
+        # that may hold it is the caller's mistake, not typify's
+        for p_ in s.get("patches", []):
+            if p_.get("derives"):
+                p_["derives"] = [d for d in p_["derives"] if d not in ("PartialOrd", "Hash", "Ord", "Eq")] or ["PartialEq"]
     return s, "+".join(sig) or "default"
 
 
